@@ -137,6 +137,11 @@ def clone(v):
             a.const_text = v.const_text
         if hasattr(v, "veclen"):
             a.veclen = v.veclen
+        if hasattr(v, "items"):     # modelled container (list of Cells): copying the value copies the elements
+            a.items = [Cell(clone(c.val)) for c in v.items]
+        for extra in ("pos", "hi", "lo", "seq"):
+            if hasattr(v, extra):
+                setattr(a, extra, getattr(v, extra))
         a.fields = {k: Cell(clone(c.val)) for k, c in v.fields.items()}
         a.variants = {k: Cell(clone(c.val)) for k, c in v.variants.items()}
         # lazily named children keep resolving to the same symbols as the original (same name) - that IS the copy
@@ -578,6 +583,30 @@ class Executor:
                 y = f"((_ extract {w - 1} 0) {y})"
         cmpops = {"Eq": "=", "Lt": "bvslt" if sg else "bvult", "Le": "bvsle" if sg else "bvule",
                   "Gt": "bvsgt" if sg else "bvugt", "Ge": "bvsge" if sg else "bvuge"}
+        # both operands are literals of the same width: evaluate with machine semantics (keeps container lengths,
+        # counters and loop indices concrete along a path instead of growing (bvadd (bvadd 0 1) 1) terms)
+        cx, cy = const_of(x), const_of(y)
+        if (isinstance(cx, int) and isinstance(cy, int) and not isinstance(cx, bool) and not isinstance(cy, bool)
+                and op not in ("Shl", "Shr", "Div", "Rem", "Offset", "Cmp")):
+            M = 1 << w
+
+            def sv(v):
+                return v - M if (sg and v >= M >> 1) else v
+            ax, ay = sv(cx), sv(cy)
+            if op in cmpops or op == "Ne":
+                r = {"Eq": ax == ay, "Ne": ax != ay, "Lt": ax < ay, "Le": ax <= ay, "Gt": ax > ay, "Ge": ax >= ay}[op]
+                return Leaf("true" if r else "false", "bool")
+            base = op.replace("WithOverflow", "").replace("Unchecked", "")
+            if base in ("Add", "Sub", "Mul", "BitAnd", "BitOr", "BitXor"):
+                exact = {"Add": ax + ay, "Sub": ax - ay, "Mul": ax * ay, "BitAnd": cx & cy, "BitOr": cx | cy,
+                         "BitXor": cx ^ cy}[base]
+                if op.endswith("WithOverflow"):
+                    lo, hi = (-(M >> 1), (M >> 1) - 1) if sg else (0, M - 1)
+                    t = Agg(self.ctx, None, f"({ta}, bool)")
+                    t.fields["0"] = Cell(Leaf(bvconst(exact, w), ta))
+                    t.fields["1"] = Cell(Leaf("false" if lo <= exact <= hi else "true", "bool"))
+                    return t
+                return Leaf(bvconst(exact, w), ta)
         if op in cmpops:
             return Leaf(fold(f"({cmpops[op]} {x} {y})"), "bool")
         if op == "Ne":
